@@ -17,7 +17,7 @@ int vh_shard = 0, vh_nshards = 1;
 jmp_buf vh_case_env;
 
 static const char *vh_prop = "C00";
-static long vh_cases = 1, vh_start = 0, vh_only = -1, vh_k = 0;
+static long vh_cases = 1, vh_start = 0, vh_only = -1, vh_upto = -1, vh_k = 0;
 static int vh_progress_fd = -1;
 static long vh_cases_run = 0, vh_nviol = 0, vh_nevals = 0;
 static uint64_t vh_prop_hash;
@@ -256,6 +256,7 @@ void vh_init(int argc, char **argv, const char *prop)
         else if (!strcmp(a, "--cases")) { vh_cases = atol(v); i++; }
         else if (!strcmp(a, "--start")) { vh_start = atol(v); i++; }
         else if (!strcmp(a, "--only")) { vh_only = atol(v); i++; }
+        else if (!strcmp(a, "--upto")) { vh_upto = atol(v); i++; }      /* history replay: this shard's cases from --start up to and including this index */
         else if (!strcmp(a, "--tier")) { vh_tier = strdup(v); i++; }
         else if (!strcmp(a, "--out")) { snprintf(vh_outdir, sizeof vh_outdir, "%s", v); i++; }
         else if (!strcmp(a, "--verbose")) vh_verbose = 1;
@@ -282,6 +283,7 @@ int vh_next_case(void)
         idx = (long) vh_shard + vh_k * (long) vh_nshards;
         vh_k++;
         if (idx < vh_start) continue;
+        if (vh_upto >= 0 && idx > vh_upto) return 0;
         break;
     }
     vh_case_idx = idx;
